@@ -139,7 +139,7 @@ class Hoister:
 # ----------------------------------------------------------------------
 # token printer
 
-VARIANTS = ("canonical", "compact", "spaced", "commented", "nopipes", "pipes", "trailing", "noas")
+VARIANTS = ("canonical", "compact", "spaced", "commented", "nopipes", "pipes", "trailing", "noas", "noparens", "bare")
 
 
 def _num(v):
@@ -207,17 +207,19 @@ def decl_tokens(d, variant="canonical"):
             for i, (pn, args) in enumerate(params):
                 # "|"? before the first param, "|"? after each param
                 if i == 0:
-                    if variant != "nopipes":
+                    if variant not in ("nopipes", "bare"):
                         toks.append("|")
                 elif variant == "pipes":
                     pass  # pipe already emitted after previous param
-                toks += [pn, "("]
+                toks += [pn] + (["("] if variant not in ("noparens", "bare") else [])
                 for j, a in enumerate(args):
                     toks += value_tokens(a)
                     if j + 1 < len(args) or variant == "trailing":
                         toks.append(",")
-                toks.append(")")
-                if variant == "pipes" or (i + 1 < len(params) and variant != "nopipes"):
+                if variant not in ("noparens", "bare"):
+                    toks.append(")")
+                # the parentheses are optional in the grammar; without them the "|" is what ends a parameter
+                if variant == "pipes" or (i + 1 < len(params) and variant not in ("nopipes", "bare")):
                     toks.append("|")
             toks.append(",")
         toks.append("}")
